@@ -319,7 +319,23 @@ func runImport(t *testing.T, rc *RunCtx) {
 				return
 			}
 		}
-		code, stdout, stderr := dirkCLI(t, dir, nil, "--import-slashing-protection", "--genesis-validators-root="+genesisRoot, "--slashing-protection-file="+path)
+		// A fifth of the imports meet a storage fault: the N-th storage operation of the importing process fails (or
+		// that one and all later ones - a disk that stays full).  Whatever the process then says is judged as usual:
+		// an import that reports success has to have recorded everything the file holds.
+		var faultEnv []string
+		if ch.Pick(5, 0) == 3 {
+			fa := strconv.Itoa(1 + ch.Pick(12, 0))
+			if ch.Pick(2, 0) == 1 {
+				fa += "+"
+			}
+			faultEnv = []string{"VERIF_HOOK_FAIL_AT=" + fa}
+			rc.Stats.Inc("fault_import_storage_operation_failed", 1)
+			rc.Logf("import %d runs with %s", imp, faultEnv[0])
+		}
+		code, stdout, stderr := dirkCLI(t, dir, faultEnv, "--import-slashing-protection", "--genesis-validators-root="+genesisRoot, "--slashing-protection-file="+path)
+		if faultEnv != nil && code == 0 {
+			rc.Stats.Inc("imports_succeeded_despite_configured_storage_fault", 1) // the fault index lay beyond the import's last operation, or the failing operation did not matter
+		}
 		after, c2, m2 := cliExport(t, pop, dir)
 		if c2 != 0 {
 			rc.Violate("C10", "store-unusable-after-import", m2, imp)
@@ -632,9 +648,21 @@ func runExport(t *testing.T, rc *RunCtx) {
 	_ = os.WriteFile(file, []byte(out), 0o600)
 	defer os.Remove(file)
 	dir2 := NewRunDir(t)
-	if code, _, se := dirkCLI(t, dir2, nil, "--import-slashing-protection", "--genesis-validators-root="+genesisRoot, "--slashing-protection-file="+file); code != 0 {
-		rc.Violate("C11", "own-export-not-importable", se, 0)
-		return
+	// A quarter of the runs: the first attempt of the import meets one failing storage operation.  If it says it
+	// succeeded nonetheless, the new instance is held to that; otherwise the operator runs it again.
+	imported := false
+	if rc.Ch.Pick(4, 0) == 3 {
+		fa := "VERIF_HOOK_FAIL_AT=" + strconv.Itoa(1+rc.Ch.Pick(2*nKeys+1, 0))
+		code, _, _ := dirkCLI(t, dir2, []string{fa}, "--import-slashing-protection", "--genesis-validators-root="+genesisRoot, "--slashing-protection-file="+file)
+		rc.Stats.Inc("fault_reimport_storage_operation_failed", 1)
+		rc.Logf("first import attempt with %s: exit %d", fa, code)
+		imported = code == 0
+	}
+	if !imported {
+		if code, _, se := dirkCLI(t, dir2, nil, "--import-slashing-protection", "--genesis-validators-root="+genesisRoot, "--slashing-protection-file="+file); code != 0 {
+			rc.Violate("C11", "own-export-not-importable", se, 0)
+			return
+		}
 	}
 	var probes []*Op
 	for k := 0; k < nKeys; k++ {
